@@ -888,6 +888,42 @@ class Normaliser(object):
                             n_ += 1
         if n_:
             self.inlined.append(('if/else assignments', str(n_), 'to-conditional-expression'))
+        # `while True: if c: S; break` + REST  ->  `while not c: REST` followed by S (the guard is the loop's only exit)
+        w_ = 0
+        for t in self.trees.values():
+            for holder in ast.walk(t):
+                for fld in ('body', 'orelse', 'finalbody'):
+                    b = getattr(holder, fld, None)
+                    if not (isinstance(b, list) and b and isinstance(b[0], ast.stmt)):
+                        continue
+                    i = 0
+                    while i < len(b):
+                        s = b[i]
+                        if isinstance(s, ast.While) and isinstance(s.test, ast.Constant) and s.test.value is True and not s.orelse and s.body and \
+                                isinstance(s.body[0], ast.If) and not s.body[0].orelse and s.body[0].body and isinstance(s.body[0].body[-1], ast.Break):
+                            g = s.body[0]
+
+                            def own_breaks(stmts):
+                                out = []
+                                for x in stmts:
+                                    if isinstance(x, (ast.Break, ast.Return)):
+                                        out.append(x)
+                                    elif isinstance(x, (ast.For, ast.While, ast.FunctionDef)):
+                                        out.extend(y for y in ast.walk(x) if isinstance(y, ast.Return))
+                                    else:
+                                        for f2 in ('body', 'orelse', 'finalbody', 'handlers'):
+                                            sub = getattr(x, f2, None)
+                                            if isinstance(sub, list):
+                                                for y in sub:
+                                                    out.extend(own_breaks(y.body if isinstance(y, ast.ExceptHandler) else [y]))
+                                return out
+                            if len(own_breaks(s.body)) == 1 and not any(isinstance(y, (ast.Continue,)) for x in g.body for y in ast.walk(x)):
+                                new_loop = ast.copy_location(ast.While(test=_negate(g.test), body=s.body[1:] or [ast.Pass()], orelse=[]), s)
+                                b[i:i + 1] = [new_loop] + g.body[:-1]
+                                w_ += 1
+                        i += 1
+        if w_:
+            self.inlined.append(('while True / break', str(w_), 'to-while-condition'))
 
     def _propagate_temporaries(self):
         """`tmp__iN = name` introduced by inlining, where `name` is bound once in the function: tmp is that name"""
